@@ -8,6 +8,9 @@ NOT_APPLICABLE = {}
 
 TB = "Trusted base: Go 1.23.5 runtime/encoding/xml, the harness oracle for this property (small reference model), the overlay build. Says nothing about inputs/schedules not produced."
 
+# races on the unacknowledged-stanza queue / send path are attributed to C08 and C10 (DESIGN 3.4)
+QUEUE_RACE = r"UnAckQueue|SendMissingStz|\(\*Client\)\.Send"
+
 PROPS = {
     "C17": dict(pkg="stanza", test="TestVf_C17", race=False, level="exploration", timeout=(120, 900), floor=1000,
                 technique="runtime monitor: lock-step reference FIFO over generated operation histories",
@@ -41,3 +44,7 @@ PROPS["C02"] = dict(pkg="stanza", test="TestVf_C02", race=False, level="explorat
     text="Grammar-generated streams (quick 2k, thorough 60k; client, component and WebSocket-framing headers; 1-12 top-level elements over every kind NextPacket knows; random addressing incl. foreign-namespace attributes named to/from/id/type; known children, registered extensions, unknown-namespace children nested up to depth 200/5000 whose descendants are named message/presence/iq/body/error... in jabber:client and other namespaces; CDATA, comments, PIs, character references) are read with successive NextPacket calls under six segmentations (whole, byte-wise, random chunks, each bare and behind the 32 KiB bufio reader the transports use). The i-th result must have the Go type and type/id/from/to/lang of the i-th element, results must not depend on the segmentation, unknown elements must give an error. Totality: every truncation of sampled streams plus quick 20k / thorough 2M mutated or random byte strings; panic, (nil,nil) or a call still running after 10 s is a violation.",
     note=TB + " Only kind and addressing are asserted, nothing about what follows an error. Nesting is bounded below encoding/xml's own 10000-level limit.",
     assumptions=["encoding/xml tokenizer", "generator's expected list"])
+PROPS["C05"] = dict(pkg="xmpp", test="TestVf_C05", race=True, race_verdict=True, race_ignore=QUEUE_RACE, level="exploration", timeout=(300, 2400), floor=20,
+    technique="runtime monitor: exactly-once multiset/order oracle over recorded handler invocations + Go race detector",
+    text="After a scripted negotiation the peer sends random sequences (quick 160 x <=60, thorough 1200 x <=300 elements) over {message incl. 30 KiB bodies and unknown extensions that wrap nested stanzas, presence, iq of every type with known/unknown payloads, <r/>, <a h/> also when stream management was never enabled}, randomly segmented, to a Client over TCP (ending with a sentinel, a FIN or an RST right after the last complete element), a Component over TCP and a Client over WebSocket (one stanza per message, several per message, one stanza fragmented over frames). A catch-all route records ids while handlers sleep/yield; a gate case makes the first handler wait for the second to start. Oracle: multiset of routed ids == stanzas sent (subset without duplicates after RST), component order == arrival order, number of <a/> >= number of <r/>, process alive; loss is decided when nothing is in flight any more (goroutine-state predicate), not by a timeout. Runs under -race; reports on the receive/route path are violations (queue/send-path reports belong to C08/C10).",
+    note=TB, assumptions=["scripted peer and catch-all route recorder in the harness", "loopback TCP / nhooyr websocket server side"])
